@@ -43,6 +43,29 @@ type upEntry struct {
 	Seq        string
 }
 
+// upDate draws a valid calendar date (xs:date, YYYY-MM-DD), with leap days, month ends and year ends over-represented.
+func upDate(r *rand.Rand) string {
+	y := 1986 + r.Intn(40)
+	leap := func(y int) bool { return y%4 == 0 && (y%100 != 0 || y%400 == 0) }
+	days := []int{31, 28, 31, 30, 31, 30, 31, 31, 30, 31, 30, 31}
+	switch r.Intn(6) {
+	case 0: // 29 February of a leap year (2000 is one, by the 400 rule)
+		y = []int{1988, 1992, 1996, 2000, 2004, 2008, 2012, 2016, 2020, 2024, 2000, 2000}[r.Intn(12)]
+		return fmt.Sprintf("%04d-02-29", y)
+	case 1: // last day of a month
+		m := r.Intn(12)
+		d := days[m]
+		if m == 1 && leap(y) {
+			d = 29
+		}
+		return fmt.Sprintf("%04d-%02d-%02d", y, m+1, d)
+	case 2:
+		return fmt.Sprintf("%04d-%02d-01", y, 1+r.Intn(12))
+	}
+	m := r.Intn(12)
+	return fmt.Sprintf("%04d-%02d-%02d", y, m+1, 1+r.Intn(days[m]))
+}
+
 func randUniprotDoc(r *rand.Rand, n int, small bool) ([]upEntry, string) {
 	var sb strings.Builder
 	sb.WriteString("<?xml version=\"1.0\" encoding=\"UTF-8\"?>\n<uniprot xmlns=\"http://uniprot.org/uniprot\"")
@@ -65,7 +88,7 @@ func randUniprotDoc(r *rand.Rand, n int, small bool) ([]upEntry, string) {
 		}
 		e.Seq = randString(r, "ACDEFGHIKLMNPQRSTVWY", sl)
 		es = append(es, e)
-		fmt.Fprintf(&sb, "<entry dataset=\"%s\" created=\"20%02d-0%d-1%d\" modified=\"2020-08-12\" version=\"%d\"", []string{"Swiss-Prot", "TrEMBL"}[r.Intn(2)], r.Intn(20), 1+r.Intn(9), r.Intn(10), 1+r.Intn(200))
+		fmt.Fprintf(&sb, "<entry dataset=\"%s\" created=\"%s\" modified=\"%s\" version=\"%d\"", []string{"Swiss-Prot", "TrEMBL"}[r.Intn(2)], upDate(r), upDate(r), 1+r.Intn(200))
 		if r.Intn(2) == 0 {
 			sb.WriteString(" xmlns=\"http://uniprot.org/uniprot\"")
 		}
@@ -86,7 +109,7 @@ func randUniprotDoc(r *rand.Rand, n int, small bool) ([]upEntry, string) {
 			}
 			sb.WriteString("  <proteinExistence type=\"inferred from homology\"/>\n")
 		}
-		fmt.Fprintf(&sb, "  <sequence length=\"%d\" mass=\"%d\" checksum=\"%016X\" modified=\"2009-05-05\" version=\"1\">%s</sequence>\n</entry>\n", len(e.Seq), 110*len(e.Seq), r.Uint64(), e.Seq)
+		fmt.Fprintf(&sb, "  <sequence length=\"%d\" mass=\"%d\" checksum=\"%016X\" modified=\"%s\" version=\"1\">%s</sequence>\n</entry>\n", len(e.Seq), 110*len(e.Seq), r.Uint64(), upDate(r), e.Seq)
 	}
 	if r.Intn(2) == 0 {
 		sb.WriteString("<copyright>\nCopyrighted by the UniProt Consortium\n</copyright>\n")
